@@ -270,6 +270,20 @@ def run_concrete(h, case, j, tier='quick'):
 
 
 # ---------------------------------------------------------------- native replay
+def nat_inputs(h, case, j, predicted=None):
+    fn = getattr(h, 'native_inputs_pred', None)
+    if fn is not None:
+        return fn(case, j, predicted)
+    return h.native_inputs(case, j)
+
+
+def native_run(h, items):
+    fn = getattr(h, 'run_native', None)
+    if fn is not None:
+        return fn(items)
+    return NATIVE.run(h.kernel, items)
+
+
 class Native:
     """batch interface to the replay binary (built from /repo's current tree)"""
     def __init__(self):
@@ -322,7 +336,7 @@ def run_check(prop, harnesses, tier, seed, level_text='', jobs=None, time_cap=No
                 vecs.append((case, j))
         if not vecs:
             continue
-        natives = NATIVE.run(h.kernel, [dict(case=c, inputs=h.native_inputs(c, j)) for c, j in vecs])
+        natives = native_run(h, [dict(case=c, inputs=h.native_inputs(c, j)) for c, j in vecs])
         for (case, j), nat in zip(vecs, natives):
             try:
                 mine = run_concrete(h, case, j, tier)
@@ -404,7 +418,7 @@ def run_check(prop, harnesses, tier, seed, level_text='', jobs=None, time_cap=No
             continue
         hn, case, k = hit
         h = hmap[hn]
-        nat = NATIVE.run(h.kernel, [dict(case=case, inputs=h.native_inputs(case, k['inputs']))])[0] if h.kernel else None
+        nat = native_run(h, [dict(case=case, inputs=nat_inputs(h, case, k['inputs'], k.get('predicted')))])[0] if h.kernel else None
         n_replayed += 1
         if h.kernel and not h.is_violation(case, k['inputs'], nat):
             print('ERROR property=%s known finding %s: symbolic counterexample %s does not reproduce natively (%s)'
@@ -426,7 +440,7 @@ def run_check(prop, harnesses, tier, seed, level_text='', jobs=None, time_cap=No
         if h.kernel is None:
             nat, genuine, agrees = None, True, True
         else:
-            nat = NATIVE.run(h.kernel, [dict(case=case, inputs=h.native_inputs(case, v['inputs']))])[0]
+            nat = native_run(h, [dict(case=case, inputs=nat_inputs(h, case, v['inputs'], v.get('predicted')))])[0]
             n_replayed += 1
             genuine = h.is_violation(case, v['inputs'], nat)
             agrees = h.native_matches(case, v['inputs'], nat, v['predicted'])
@@ -436,6 +450,7 @@ def run_check(prop, harnesses, tier, seed, level_text='', jobs=None, time_cap=No
             with open(path, 'w') as f:
                 json.dump(dict(property=prop, harness=hn, kernel=h.kernel, case=case, inputs=v['inputs'],
                                obligation=v['ob'], predicted=v['predicted'], native=nat,
+                               native_inputs=nat_inputs(h, case, v['inputs'], v.get('predicted')),
                                oracle=h.oracle(case, v['inputs'])), f, indent=1)
             print('VIOLATION property=%s replay=%s' % (prop, path))
             print('  harness=%s obligation=%s inputs=%s native=%s expected=%s' % (
